@@ -23,7 +23,9 @@ RULE = (
     "points of spacing 0.731 (R = number of declared frequencies from qp.gradients.parameter_frequencies(op)[i]) is fitted by least "
     "squares with {1, cos(w x), sin(w x) : w declared}; max residual <= 1e-8 * max(1,|O|) i.e. no spectral weight outside the declared "
     "set; (ii) sum_i c_i f(x + s_i) with (c, s) = qp.gradients.generate_shift_rule(declared) equals the 5-point finite-difference "
-    "derivative (h = 1e-3) at three points within 1e-6. ParameterFrequenciesUndefinedError = no claim (rejected); a 'near zero "
+    "derivative (h = 1e-3) at three points within 1e-6. For qp.evolve generators (frequencies declared with 8-decimal eigenvalues) the "
+    "tolerance on the true f adds the propagated rounding 1e-8 * |O|_F * sum_i |c_i| |x+s_i|, and the rule must also be exact (1e-5) on "
+    "the reference model whose generator spectrum is rounded to 8 decimals. ParameterFrequenciesUndefinedError = no claim (rejected); a 'near zero "
     "determinant' warning of generate_shift_rule = rejected. Non-trivial: f actually varies with x (std over samples > 1e-4)."
 )
 ASSUMPTIONS = [
@@ -95,8 +97,9 @@ def with_param(t, i, x):
     return t
 
 
-def _evo(spec, x):
-    """(PennyLane operator, reference matrix on its wires) for the evolution case."""
+def _evo(spec, x, rounded=False):
+    """(PennyLane operator, reference matrix on its wires) for the evolution case. rounded=True: the reference
+    matrix of the same generator with its eigenvalues rounded to 8 decimals (the precision of the declared frequencies)."""
     import pennylane as qp
     from scipy.linalg import expm
 
@@ -107,7 +110,11 @@ def _evo(spec, x):
                  for c, word in zip(spec["coeffs"], spec["words"])])
     op = qp.evolve(H, x)
     Hm = sum(c * G.pauli_word(word) for c, word in zip(spec["coeffs"], spec["words"]))
-    U = expm(-1j * x * Hm)
+    if rounded:
+        lam, Q = np.linalg.eigh(Hm)
+        U = (Q * np.exp(-1j * x * np.round(lam, 8))) @ Q.conj().T
+    else:
+        U = expm(-1j * x * Hm)
     wires = list(ws)
     if spec["ctrl"]:
         op = qp.ctrl(op, control=[("ec", 0)])
@@ -164,9 +171,9 @@ def _check_core(spec, evo):
     WOW = W.conj().T @ O @ W
     scale = max(1.0, float(np.abs(O).max()))
 
-    def f(x):
+    def f(x, rounded=False):
         if evo:
-            Ux = sim.embed(_evo(spec, float(x))[1], wires, order)
+            Ux = sim.embed(_evo(spec, float(x), rounded)[1], wires, order)
             phi = Ux @ psi
             return float(np.real(np.vdot(phi, WOW @ phi)))
         o = R.build_target(with_param(t, i, float(x)))
@@ -199,12 +206,32 @@ def _check_core(spec, evo):
                 not np.all(np.isfinite(rule)) or np.abs(rule[:, 0]).max() > 1e6:
             raise Reject("generate_shift_rule: near zero determinant / ill-conditioned default shifts (documented caveat)")
         h = 1e-3
+        # Triage (thorough tier): the fixed tolerance below was too tight for Evolution generators with nearly
+        # degenerate levels (gaps such as 0.0152 next to 2.0463 / 2.0616). Operation.parameter_frequencies documents
+        # that the frequencies are "computed numerically" and rounds the eigenvalues to 8 decimals, so every declared
+        # frequency is off by delta <= 1e-8. The rule is exact for g = f with the rounded spectrum; for the true f
+        #   |sum_i c_i f(x+s_i) - f'(x)| <= delta * A * (sum_i |c_i| |x+s_i| + 1 + wmax |x|),
+        # A = sum of the Fourier amplitudes of f <= ||O||_F (f = sum_jk conj(a_j) a_k M_jk e^{i(l_j-l_k)x}, |a| = 1,
+        # M unitarily equivalent to O). With close frequencies the default equidistant shifts give sum|c_i| ~ 1e5-1e6
+        # (reproduced by hand: with the unrounded frequencies the same rule is exact to 3e-8), so the propagated
+        # rounding reached 1e-3 while the old bound allowed 4e-5. The extra term is <= 1e-6 for well-conditioned rules
+        # (nothing loosened there) but a worst-case bound for ill-conditioned ones; to keep those cases sharp the rule
+        # is ALSO applied to g (reference matrices of the generator with eigenvalues rounded to 8 decimals, built with
+        # numpy eigh, independent of PennyLane), where it must be exact within the old tolerance: a missing or wrong
+        # declared frequency still alarms there. Named gates (evo False) are unchanged.
+        o_fro = float(np.linalg.norm(O))
+        base = (1e-5 if evo else 1e-6) * scale * max(1.0, max(freqs)) ** (1 if evo else 0)
         for x in (spec["x0"], spec["x0"] + 1.234, spec["x0"] - 2.1):
-            got = sum(c * f(x + s) for c, s in rule[:, :2])
-            fd = (-f(x + 2 * h) + 8 * f(x + h) - 8 * f(x - h) + f(x - 2 * h)) / (12 * h)
-            if abs(got - fd) > (1e-5 if evo else 1e-6) * scale * max(1.0, max(freqs)) ** (1 if evo else 0):
-                raise Viol("shift-rule-not-exact", f"{op} parameter {i}: shift rule from {freqs} gives {got:.9g}, finite difference {fd:.9g} at x={x}",
-                           sig=sig, features=feats)
+            for rounded in ((False, True) if evo else (False,)):
+                got = sum(c * f(x + s, rounded) for c, s in rule[:, :2])
+                fd = (-f(x + 2 * h, rounded) + 8 * f(x + h, rounded) - 8 * f(x - h, rounded) + f(x - 2 * h, rounded)) / (12 * h)
+                tol = base
+                if evo and not rounded:
+                    tol += 1e-8 * o_fro * (float(np.sum(np.abs(rule[:, 0]) * np.abs(x + rule[:, 1]))) + 1.0 + max(freqs) * abs(x))
+                if abs(got - fd) > tol:
+                    raise Viol("shift-rule-not-exact", f"{op} parameter {i}: shift rule from {freqs} gives {got:.9g}, finite difference {fd:.9g} "
+                                                       f"at x={x}" + (" (generator spectrum rounded to 8 decimals)" if rounded else ""),
+                               sig=sig, features=feats)
         labels.append("shift-rule-checked")
     return Result(varies, labels=labels)
 
